@@ -77,7 +77,7 @@ func checkDeny(c denyCase) denyOutcome {
 		with = " (with only the " + c.Option + " option set)"
 	}
 	switch c.Kind {
-	case "env-subst":
+	case "env-subst", "modulemeta":
 		qs, err := gojq.Parse(c.Src)
 		if err != nil {
 			return denyOutcome{discard: "parse-error"}
@@ -105,6 +105,12 @@ func checkDeny(c denyCase) denyOutcome {
 		if ra.Budget || rs.Budget {
 			return denyOutcome{discard: "budget"}
 		}
+		if c.Kind == "modulemeta" {
+			if m := sameRun("X | try modulemeta catch \"denied\"", "X | \"denied\"                    ", rs, ra); m != "" {
+				return denyOutcome{msg: "modulemeta without a module loader did not simply fail" + with + ": " + m}
+			}
+			return denyOutcome{}
+		}
 		if m := sameRun("with env/$ENV", "with {}       ", rs, ra); m != "" {
 			return denyOutcome{msg: "env/$ENV is not the empty object" + with + ": " + m}
 		}
@@ -123,28 +129,6 @@ func checkDeny(c denyCase) denyOutcome {
 		}
 		if _, err := gojq.Compile(qs, opts...); err == nil {
 			return denyOutcome{msg: fmt.Sprintf("%q compiles%s although the capability it names was not granted", c.Src, with)}
-		}
-		return denyOutcome{}
-	case "modulemeta":
-		code, err := run.Compile(c.Src, opts...)
-		if err != nil {
-			return denyOutcome{msg: fmt.Sprintf("%q: %v", c.Src, err)}
-		}
-		r := run.Exec(code, univ.Copy(c.Input.X), steps, maxOuts, vars...)
-		if r.Panic != "" {
-			return denyOutcome{msg: "gojq panicked: " + r.Panic}
-		}
-		// Src is `try (X | modulemeta) catch "denied"`-shaped: every output must be "denied"
-		if r.Err != nil {
-			return denyOutcome{msg: fmt.Sprintf("%q%s: unexpected error %v", c.Src, with, r.Err)}
-		}
-		for _, v := range r.Vals {
-			if v != "denied" {
-				return denyOutcome{msg: fmt.Sprintf("%q%s produced %s: modulemeta reached a module", c.Src, with, univ.Show(v))}
-			}
-		}
-		if len(r.Vals) == 0 {
-			return denyOutcome{msg: fmt.Sprintf("%q%s produced nothing", c.Src, with)}
 		}
 		return denyOutcome{}
 	}
@@ -237,11 +221,7 @@ func runDeny(t *testing.T) {
 					direct("deny-matrix", c, "deny/import-does-not-compile/option="+opt)
 				}
 				for _, name := range []string{"\"m\"", "\"./m\"", "\"/etc/passwd\"", ".", "\"\"", "(\"m\", \"n\")", "\"~/.jq\""} {
-					src := strings.ReplaceAll(w, "%s", "try ("+name+" | modulemeta) catch \"denied\"")
-					if strings.Contains(w, "path(") || strings.Contains(w, "if . then") || strings.Contains(w, "//") || strings.Contains(w, "s\\(") || strings.Contains(w, "{a:") || strings.Contains(w, "..") {
-						continue // the embedding changes the value: only pass-through embeddings here
-					}
-					c := denyCase{Kind: "modulemeta", Src: src, Input: in, Option: opt}
+					c := denyCase{Kind: "modulemeta", Src: strings.ReplaceAll(w, "%s", "("+name+" | try modulemeta catch \"denied\")"), Alt: strings.ReplaceAll(w, "%s", "("+name+" | \"denied\")"), Input: in, Option: opt}
 					direct("deny-matrix", c, "deny/modulemeta-errors/option="+opt)
 				}
 			}
